@@ -59,20 +59,13 @@ def is_int_count(f: Func, e: ast.AST, depth: int = 0) -> bool:
     return False
 
 
-def check(ctx) -> None:
-    pl = Pipeline(ctx)
-    prog = ctx.prog
+def stat_writers(ctx, pl):
+    """(writers: key -> [stage labels], key_site: key -> (func, stmt, value), first stage line)"""
     f = pl.func
-    ctx.rule("C18-Z1", "each statistics key is written by exactly one stage call per pipeline run", 6)
-    ctx.rule("C18-Z2", "every key read by the CLI/benchmark is stored on every path (guarded only by `stats is not None`)", 7)
-    ctx.rule("C18-Z3", "counters sit on the decision they count", 5)
-    ctx.rule("C18-Z4", "every stored statistic is an int count", 6)
     ctx.require(len(f.params) >= 3, "__run_pipeline lost its stats parameter")
     sname = f.params[2]
     writers: Dict[str, List[str]] = {}
     key_site: Dict[str, Tuple[Func, ast.AST, ast.AST]] = {}
-    # inline stores in the pipeline function
-    cfg = CFG(f.node)
     first_stage_line = min(s.call.lineno for s in pl.stages if not s.inline)
     for n, k, v in stats_stores(ctx, f, sname):
         writers.setdefault(k, []).append("__run_pipeline@%d" % n.lineno)
@@ -94,12 +87,23 @@ def check(ctx) -> None:
         for n, k, v in stats_stores(ctx, callee, bound):
             writers.setdefault(k, []).append("stage %d %s" % (st.index, st.label))
             key_site[k] = (callee, n, v)
-        # stats handed further down
         for c in [x for x in own_nodes(callee.node) if isinstance(x, ast.Call)]:
             if any(isinstance(a, ast.Name) and a.id == bound for a in list(c.args) + [kw.value for kw in c.keywords]):
                 tgt = ctx.res.resolve_callee(c, callee)
                 if tgt and tgt[0] == "func":
                     ctx.note("stats object is passed on to %s from %s" % (tgt[1], callee.qualname))
+    return writers, key_site, first_stage_line
+
+
+def check(ctx) -> None:
+    pl = Pipeline(ctx)
+    prog = ctx.prog
+    f = pl.func
+    ctx.rule("C18-Z1", "each statistics key is written by exactly one stage call per pipeline run", 6)
+    ctx.rule("C18-Z2", "every key read by the CLI/benchmark is stored on every path (guarded only by `stats is not None`)", 7)
+    ctx.rule("C18-Z3", "counters sit on the decision they count", 5)
+    ctx.rule("C18-Z4", "every stored statistic is an int count", 6)
+    writers, key_site, first_stage_line = stat_writers(ctx, pl)
     ctx.require(None not in writers, "a statistics key is not a string constant")
     for k, ws in sorted(writers.items()):
         ok = len(ws) == 1
